@@ -231,14 +231,20 @@ FullKeys(e) ==
     [] e.seq = "BottomK"  -> BottomKKeys(M, e.n)
     [] e.seq = "Range"    -> IF e.open THEN RangeOpenKeys(M, e.a) ELSE RangeKeys(M, e.a, e.b)
     [] e.seq = "Prefix"   -> PrefixKeys(M, OTab, e.p)
+(* "RangeAny": Range of a tree kind for which C03 gives the content no meaning (collation): the protocol still *)
+(* applies - the LAST pass is complete, every pass is the prefix of it that its stop position asks for.        *)
 C14(e) ==
   /\ NoPanic(e, {"Iter"})
   /\ (Good(e) /\ e.op = "Iter") =>
         /\ e.late = 0
         /\ Len(e.passes) = Len(e.stops)
-        /\ \A i \in 1..Len(e.stops) :
-              /\ e.passes[i] = Pass(FullKeys(e), e.stops[i])
-              /\ e.pvals[i] = ValsOf(M, e.passes[i])
+        /\ IF e.seq = "RangeAny"
+           THEN \A i \in 1..Len(e.stops) :
+                   /\ e.passes[i] = Pass(e.passes[Len(e.passes)], e.stops[i])
+                   /\ e.pvals[i] = Pass(e.pvals[Len(e.pvals)], e.stops[i])
+           ELSE \A i \in 1..Len(e.stops) :
+                   /\ e.passes[i] = Pass(FullKeys(e), e.stops[i])
+                   /\ e.pvals[i] = ValsOf(M, e.passes[i])
 Inv_C14 == Each(C14)
 
 (* C15 - queries and no-op updates leave the tree untouched *)
